@@ -579,6 +579,11 @@ func (s *AbsfsNFS) CreateWithContext(ctx context.Context, dir *NFSNode, name str
 		return nil, fmt.Errorf("create: failed to chmod %s: %w", path, err)
 	}
 
+	if err := s.fs.Chown(path, int(attrs.Uid), int(attrs.Gid)); err != nil {
+		s.fs.Remove(path)
+		return nil, fmt.Errorf("create: failed to chown %s: %w", path, err)
+	}
+
 	// Invalidate parent directory caches and negative cache entries in the directory
 	s.attrCache.Invalidate(dir.path)
 	s.attrCache.InvalidateNegativeInDir(dir.path)
